@@ -28,7 +28,11 @@ META = {
                   "by a decoder before `anon` are not observable); pseudonym tables are driven up to and beyond the capacity of 999 per name space (sizes 257 and 1003 in quick; "
                   "1..5, 255..257, 300, 999, 1000, 1003, 1012 in thorough) for ECUs, APIDs of one ECU and CTIDs of one ECU/APID - within the "
                   "capacity the contract is function + injective, past it exactly the code's documented cut to 4 characters (id no. "
-                  "1000..1009 gets the pseudonym of id no. 100, ...); the file transfer plugin runs with every apid x ctid configuration "
+                  "1000..1009 gets the pseudonym of id no. 100, ...); id populations also contain ids shaped like the pseudonyms themselves (E001, A001, C001, E999, cut forms), ids "
+                  "differing only in case / zero vs. space padding, non-printable ids, in both arrival orders, with lifecycle tables "
+                  "compared; SOME/IP segmented transfers (NWST/NWCH/NWEN) are replayed from the boundary alphabet of "
+                  "PluginsSomeIpSeg.tla (counts 0/1/2/65534/65535, sizes 0/1/3/65535, chunk numbers 0/1/65535, lengths 0/1/3/4): all "
+                  "sequences of <= 2 messages on one id, seeded sequences of 3..6 messages over two interleaved ids; the file transfer plugin runs with every apid x ctid configuration "
                   "(none | the main source | another source) x keepFLDA, FLDA-shaped messages of non-matching sources must pass; lifecycle "
                   "comparison streams contain log messages only (known defect #17 of the detector and control-message heuristics "
                   "are C05-C08's business); a detector panic on the *original* stream skips the comparison. The CAN plugin is "
@@ -149,6 +153,9 @@ def check(ctx):
     c.tlc_must_pass(ctx, "anon-tables", "PluginsAnon.tla", "PluginsAnon_quick.cfg" if quick else "PluginsAnon_thorough.cfg",
                     timeout=3000, workers=wk)
     # (b) TLC enumerates the chains
+    c.tlc_must_pass(ctx, "someip-seg", "PluginsSomeIpSeg.tla", "PluginsSomeIpSeg_quick.cfg" if quick else "PluginsSomeIpSeg_thorough.cfg",
+                    timeout=3000, workers=wk)
+    seg_emit = c.tlc_must_pass(ctx, "someip-seg-alphabet", "PluginsSomeIpSeg.tla", "PluginsSomeIpSeg_emit.cfg", timeout=600, workers=wk)
     emit = c.tlc_must_pass(ctx, "chains", "Plugins.tla", "Plugins_emit.cfg", timeout=600, workers=wk)
     chains = [s["chain"] for s in c.scn_lines(emit)]
     ftcfgs = sorted(c.scn_lines(emit, tag="FTCFG"), key=lambda x: (x["apid"], x["ctid"]))    # apid x ctid in none|match|other
@@ -174,6 +181,20 @@ def check(ctx):
     for cfg in ftcfgs:
         for kd in ("ft_drop", "ft_keep"):
             add(chain=[kd], stream="mixed", ft=cfg)
+    # SOME/IP segmented transfers: the boundary alphabet comes from TLC (PluginsSomeIpSeg.tla); all sequences of <= 2 messages
+    # on one segment id, plus seeded longer sequences over both ids (interleaving, second NWST, chunks out of order ...)
+    letters = sorted(c.scn_lines(seg_emit), key=lambda x: json.dumps(x, sort_keys=True))
+    one = [x for x in letters if x["id"] == 1]
+    seqs = [[a] for a in one] + [[a, b] for a in one for b in one]
+    for _ in range(500 if quick else 6000):
+        seqs.append([rnd.choice(letters) for _ in range(rnd.randint(3, 6))])
+    for j, sq in enumerate(seqs):
+        add(chain=[["someip"], ["someip"], ["someip"], ["rewrite", "someip"], ["someip", "anon"]][j % 5], stream="seg", seq=sq)
+    # ids shaped like pseudonyms / differing in case, padding, non-printable bytes - both arrival orders
+    for j in range(4 if quick else 24):
+        add(chain=["anon"], stream="idshapes", shapes_first=(j % 2 == 0))
+    add(chain=["nonverbose", "anon"], stream="idshapes", shapes_first=True)
+    add(chain=["anon", "rewrite"], stream="idshapes", shapes_first=False)
     # pseudonym tables up to and beyond the capacity, per level
     pop_sizes = [257, 1003] if quick else [1, 2, 3, 4, 5, 255, 256, 257, 300, 999, 1000, 1003, 1012]
     for level in ("ecu", "apid", "ctid"):
@@ -226,8 +247,10 @@ def check(ctx):
             "text_changed": 0, "ext_filled": 0, "ts_changed": 0, "ids_changed": 0, "pay_changed": 0, "per_kind_text_changed": {},
             "per_kind_chains": {}, "stream_kinds": {}, "flda_inputs": 0, "flda_dropped_cases": 0, "chain_lengths": {},
             "lc_skipped": sum(i["lc_skipped"] for _, i in infos),
-            "matching_variant_inputs": {}, "matching_variant_decoded_alone": {}, "ft_config": {}, "pseudonym_population": {}}
+            "matching_variant_inputs": {}, "matching_variant_decoded_alone": {}, "ft_config": {}, "pseudonym_population": {}, "seg_cases": 0, "seg_letters_used": 0,
+            "seg_cases_text_rewritten": 0, "seg_zero_chunk_size_then_chunk": 0, "idshape_cases": 0, "idshape_distinct_ecus": 0}
     distinct = set()
+    seg_letters = set()
     validated = 0
     st = None
     for i, v in enumerate(verdicts):
@@ -261,6 +284,19 @@ def check(ctx):
                             d["flda_of_source_kept" if passed else "flda_of_source_dropped"] += 1
                         elif passed:
                             d["flda_of_other_source_passed"] += 1
+            if h["stream"] == "seg":
+                hits["seg_cases"] += 1
+                sq = plan[k]["seq"]
+                seg_letters.update(json.dumps(x, sort_keys=True) for x in sq)
+                if len(ins) == len(outs) and any(a["vec"]["text"] != b["vec"]["text"] for a, b in zip(ins, outs) if a.get("tag") == "seg"):
+                    hits["seg_cases_text_rewritten"] += 1
+                for i1, x in enumerate(sq):
+                    if x["k"] == "ST" and x["b"] == 0 and 0 < x["a"] < 65535 and any(y["k"] == "CH" and y["id"] == x["id"] for y in sq[i1 + 1:]):
+                        hits["seg_zero_chunk_size_then_chunk"] += 1
+                        break
+            if h["stream"] == "idshapes":
+                hits["idshape_cases"] += 1
+                hits["idshape_distinct_ecus"] = max(hits["idshape_distinct_ecus"], len({e["vec"]["ecu"] for e in ins}))
             if h["stream"] == "pop" and k not in v.violations:
                 lv = hits["pseudonym_population"].setdefault(h["level"], {"sizes": [], "beyond_capacity_cases": 0})
                 lv["sizes"].append(h["size"])
@@ -339,6 +375,10 @@ def check(ctx):
     # vacuity: every decoder must have changed some text when alone, header fill / timestamp rewrite / FLDA drop / pseudonyms
     # / multi-lifecycle comparisons must have happened
     need_text = [kd for kd in ("nonverbose", "someip", "can", "muniic", "rewrite") if hits["per_kind_text_changed"].get(kd, 0) == 0]
+    hits["seg_letters_used"] = len(seg_letters)
+    if hits["seg_letters_used"] < len(letters) or hits["seg_zero_chunk_size_then_chunk"] == 0 or hits["seg_cases_text_rewritten"] == 0 \
+            or hits["idshape_cases"] < 2 or hits["idshape_distinct_ecus"] < 14:
+        raise c.ToolError("vacuous run: SOME/IP segmented / id shape paths %s" % {k: hits[k] for k in hits if k.startswith("seg") or k.startswith("idshape")})
     ftc = hits["ft_config"]
     bad_ft = [k for k, d in ftc.items() if d["flda_of_source_dropped"] == 0 or d["flda_of_source_kept"] == 0
               or (k != "apid=-,ctid=-" and d["flda_of_other_source_passed"] == 0)]
